@@ -7,7 +7,7 @@ From Pika Require Import Base.Conc Model.IndexQueue Proofs.IndexQueueProofs.
 From Pika Require Import Model.DequeSpec Model.Deque Model.DequeWitness Proofs.DequeProofs.
 From Pika Require Import Proofs.DequeSafetyProofs.
 From Pika Require Import Model.DequeLin Proofs.DequeConcDefs Proofs.DequeLinProofs.
-From Pika Require Proofs.DequeAbaDefs Proofs.DequeAbaLin Proofs.DequeQuiesce.
+From Pika Require Proofs.DequeAbaDefs Proofs.DequeAbaLin Proofs.DequeQuiesce Proofs.DequeProgOrder.
 From Pika Require Import Gen.GenBackends Model.Backends Proofs.BackendsProofs.
 Import ListNotations.
 Local Open Scope N_scope.
@@ -300,6 +300,26 @@ Theorem C17_deque_unstable_has_stabilizer : forall t g (ls : locals dq_local) c 
   DequeQuiesce.Resp (fst (dq_tstep tt t g (ls t))) (upd ls t (snd (dq_tstep tt t g (ls t)))).
 Proof. exact DequeQuiesce.resp_step. Qed.
 Print Assumptions C17_deque_unstable_has_stabilizer.
+
+(* program order: in every reachable state, for every thread, the operations it has reported
+   (its entries of [dlog], oldest first) followed by what it still has to do ([remaining]: its to-do
+   list, minus the head while it stabilizes after its own already reported push) are exactly its
+   program — the per-thread logs are the programs, in order, nothing skipped or repeated *)
+Theorem C17_deque_program_order : forall k progs sched t,
+  let g := fst (dq_run sched k progs) in let ls := snd (dq_run sched k progs) in
+  log_ops (of_tid t (dlog g)) ++ DequeProgOrder.remaining (ls t) = progs t.
+Proof. exact DequeProgOrder.deque_program_order. Qed.
+Print Assumptions C17_deque_program_order.
+
+(* hence at quiescence the linearization restricted to a thread is that thread's program: the
+   history of C17_deque_quiescent is a linearization OF THE PROGRAMS *)
+Theorem C17_deque_quiescent_program_order : forall k progs sched,
+  let ci := dq_run_i sched k progs in
+  let ls := snd (dq_run sched k progs) in
+  let lin := glin (snd (fst ci)) in
+  (forall t, dq_done (ls t) = true) -> forall t, log_ops (of_tid t lin) = progs t.
+Proof. exact DequeProgOrder.deque_quiescent_program_order. Qed.
+Print Assumptions C17_deque_quiescent_program_order.
 
 (* non-vacuity: three threads, ten operations on both ends, pool of one chunk: chunks ARE re-allocated
    ([greuse] = true, three chunks serve six pushes) *)
